@@ -11,6 +11,22 @@ Proof.
   destruct r; simpl in Hs; try discriminate; simpl in Hid; inversion Hid; subst; simpl in Hd; discriminate.
 Qed.
 
+Lemma dev_class_orphan : forall w id ch, deviates w (RClass id ch) = DevNone -> mem ch (w_orphans w) = false.
+Proof.
+  intros w id ch H. unfold deviates in H. simpl in H.
+  destruct (mem ch (w_orphans w)); [|reflexivity].
+  destruct id as [n|[|p]| |]; discriminate.
+Qed.
+
+Lemma dev_class_at_orphan : forall w id a, deviates w (RClassAt id a) = DevNone ->
+  forall b cs, resolve w id = Some b -> alookup a (b_state b) = Some cs -> mem (c_class cs) (w_orphans w) = false.
+Proof.
+  intros w id a H b cs Hr Ha. unfold deviates in H. simpl is_state_req in H. simpl req_id in H. cbv iota in H.
+  rewrite Hr, Ha in H.
+  destruct (mem (c_class cs) (w_orphans w)); [|reflexivity].
+  destruct id as [n|[|p]| |]; discriminate.
+Qed.
+
 Lemma handle_expected : forall w d, wf (w_chain w) -> R w d ->
   forall v be r, deviates w r = DevNone -> handle v be d r = expected v w r.
 Proof.
@@ -20,7 +36,7 @@ Proof.
   - apply h_block_number_ok; assumption.
   - apply h_block_hash_and_number_ok; assumption.
   - apply h_block_with_tx_hashes_ok; assumption.
-  - apply (h_block_with_tx_hashes_ok w d Hwf HR id).
+  - apply h_block_with_txs_ok; assumption.
   - apply h_block_with_receipts_ok; assumption.
   - apply h_tx_count_ok; assumption.
   - apply h_tx_by_hash_ok; assumption.
@@ -30,9 +46,13 @@ Proof.
   - apply h_state_update_ok; assumption.
   - apply h_storage_at_ok; try assumption. eapply dev_state_id; eauto; reflexivity.
   - apply h_nonce_ok; try assumption. eapply dev_state_id; eauto; reflexivity.
+  - destruct v; simpl; try reflexivity.
+    apply h_storage_at_lu_ok; try assumption. eapply dev_state_id; eauto; reflexivity.
   - apply h_class_hash_at_ok; try assumption. eapply dev_state_id; eauto; reflexivity.
-  - apply h_class_at_ok; try assumption. eapply dev_state_id; eauto; reflexivity.
-  - apply h_class_ok; try assumption. eapply dev_state_id; eauto; reflexivity.
+  - apply h_class_at_ok; try assumption; [eapply dev_state_id; eauto; reflexivity|].
+    apply dev_class_at_orphan. exact Hdev.
+  - apply h_class_ok; try assumption; [eapply dev_state_id; eauto; reflexivity|].
+    eapply dev_class_orphan. exact Hdev.
 Qed.
 
 (* ---------- answer_from_chain ---------- *)
@@ -148,11 +168,8 @@ Lemma finality_from_l1 : forall ops, ops_ok w_init ops = true ->
   forall v be id b, (match v with V8 => uses_l1_accepted (RBlockWithReceipts id) | _ => false end) = false ->
   resolve (w_run ops) id = Some b ->
   let s := finality (b_number b) (w_l1 (w_run ops)) in
-  handle v be (db_run ops) (RBlockWithTxHashes id) =
-    ABlock (b_number b) (b_hash b) (b_parent b) s (map t_hash (b_txs b)) /\
-  handle v be (db_run ops) (RBlockWithReceipts id) =
-    ABlockR (b_number b) (b_hash b) (b_parent b) s
-            (map (fun t => (t_hash t, s, t_reverted t, t_events t)) (b_txs b)).
+  handle v be (db_run ops) (RBlockWithTxHashes id) = ABlock (hdr_of b s) (map t_hash (b_txs b)) /\
+  handle v be (db_run ops) (RBlockWithReceipts id) = ABlockR (hdr_of b s) (map (rcv_of s) (b_txs b)).
 Proof.
   intros ops Hok v be id b Hv Hres s. split.
   - rewrite (answer_from_chain ops Hok v be (RBlockWithTxHashes id)); [|reflexivity].
@@ -179,9 +196,10 @@ Proof.
 Qed.
 
 Lemma v9_v10_agree : forall be d r,
-  (forall a k, r <> RStorageAt (Hash 0) a k) -> handle V9 be d r = handle V10 be d r.
+  (forall a k, r <> RStorageAt (Hash 0) a k) -> (forall id a k, r <> RStorageAtLU id a k) ->
+  handle V9 be d r = handle V10 be d r.
 Proof.
-  intros be d r Hnz. destruct r; try reflexivity.
+  intros be d r Hnz Hlu. destruct r; try reflexivity; [|exfalso; eapply Hlu; reflexivity].
   unfold handle. simpl. unfold h_storage_at.
   destruct (state_by_id be d id) as [rd|] eqn:E; [|reflexivity].
   assert (Hz : id <> Hash 0) by (intros ->; apply (Hnz a k); reflexivity).
